@@ -124,10 +124,13 @@ class Rec:
         act = sc.pop(0) if sc else None
         if act is None or act[0] == "none":
             return
+        ref = act[1] if len(act) > 1 else None
+        if ref is not None and self._refs_as_objects:
+            ref = getattr(type(self), ref)  # the API accepts the state object as well as its name
         if act[0] == "ns":
-            self.next_state(act[1])
+            self.next_state(ref)
         elif act[0] == "nsn":
-            self.next_state_now(act[1])
+            self.next_state_now(ref)
         elif act[0] == "done":
             self.done()
 
@@ -162,6 +165,7 @@ def build_machine(case, base_name):
         _class_cache[key] = cls
     m = cls()
     m._trace = []
+    m._refs_as_objects = bool(case.get("objrefs"))
     m._scripts = {sd["n"]: [list(a) for a in sd.get("script", [])] for sd in case["states"]}
     m.logger = logging.getLogger("vf.sm")
     return m
@@ -608,6 +612,21 @@ class Driver:
                         raise Abandon()
         model = SpecSM(spec, {sd["n"]: [list(a) for a in sd.get("script", [])] for sd in case["states"]}, durs)
         self.model = model
+        other = None
+        if case.get("sibling") and not spec.auto:
+            # a second instance of the very same class, bound under another name and driven on the side
+            # (engaged on every other iteration): the two instances must not influence each other
+            try:
+                other = type(m)()
+                other._trace = []
+                other._scripts = {}
+                other._refs_as_objects = False
+                other.logger = m.logger
+                setup_tunables(m, self.cname, "components")  # re-bind: state_names tunables are replaced per instantiation
+                setup_tunables(other, self.cname + "_sibling", "components")
+            except Exception as e:
+                raise self.fail_exc(e, "creating a second instance")
+            model.bump("sibling-instance")
         tw_running = True
         rows = []  # per-iteration summary for the trace rules
 
@@ -650,7 +669,7 @@ class Driver:
                             continue
                         kw = {}
                         if init is not None:
-                            kw["initial_state"] = init
+                            kw["initial_state"] = getattr(type(m), init) if case.get("objrefs") else init
                         if force:
                             kw["force"] = True
                         m.engage(**kw)
@@ -683,7 +702,7 @@ class Driver:
                         if not model.executing or spec.auto:
                             model.bump("skipped-op")
                             continue
-                        m.next_state(op[1])
+                        m.next_state(getattr(type(m), op[1]) if case.get("objrefs") else op[1])
                         model.op_next_state(op[1])
                     elif k == "dur":
                         n, us, via = op[1], op[2], op[3]
@@ -727,6 +746,13 @@ class Driver:
                     raise self.fail_exc(e, f"{op} in iteration {idx}")
                 self.finish_op(model, f"operation {op} in iteration {idx}")
 
+            if other is not None:
+                try:
+                    if idx % 2 == 0:
+                        other.engage()
+                    other.execute()
+                except Exception as e:
+                    raise self.fail_exc(e, f"sibling instance in iteration {idx}")
             # the iteration itself
             if it.get("run", True):
                 del m._trace[:]
@@ -1006,6 +1032,10 @@ def decode_sm_case(code, profile):
     case["hist"] = hist
     case["t0"] = [0, 0, 1, 20_000, 123_457, 5_000_000][t0_c]
     case["cname"] = ["m", "shooter", "arm2"][cname_c]
+    if t0_c == 2:
+        case["objrefs"] = True
+    if t0_c == 4 and "over" not in case:
+        case["sibling"] = True
     return case
 
 
@@ -1060,7 +1090,7 @@ def auto_cases(deep=False):
 
 
 class SMLab(Lab):
-    budgets = {"quick": 3000, "thorough": 200000}
+    budgets = {"quick": 5000, "thorough": 200000}
     time_budget = {"quick": 80, "thorough": 1500}
     use_twin = False
     assumptions = (
@@ -1187,7 +1217,7 @@ class C13(SMLab):
     pid = "C13"
     design_ref = "3.1/C13"
     use_twin = True
-    budgets = {"quick": 2000, "thorough": 150000}
+    budgets = {"quick": 3000, "thorough": 150000}
     rule = (
         "same machine shapes instantiated as AutonomousStateMachine, histories of 1-3 autonomous periods (on_enable, 1-25 on_iteration, usually on_disable; stray done/on_disable; "
         "duration edits); oracles = SpecSM with the engage-before-every-iteration reading and the latch, and a differential twin (the same class body on StateMachine driven by "
